@@ -460,10 +460,16 @@ def folds(ctx, prog):
                 cmp_ok = False
                 for cp in cmpc:
                     G = prog.fn(cp)
+                    gdu = DefUse(G)
+                    from .facts import Place as _Pl
+                    ret = expr(G, _Pl({"local": 0, "proj": []}), gdu)
                     for tt in G.calls():
                         if tt.callee and tt.callee.endswith("::cmp"):
-                            a, b = expr(G, tt.args[0], DefUse(G)), expr(G, tt.args[1], DefUse(G))
-                            if mentions(a, lambda x: x == ("arg", 2)) and mentions(b, lambda x: x == ("arg", 3)):
+                            a, b = expr(G, tt.args[0], gdu), expr(G, tt.args[1], gdu)
+                            # the comparator IS the key comparison: its result is returned untouched (no tie-break such
+                            # as `.then(Less)`, which would never report Equal and split a Both into Left + Right)
+                            if mentions(a, lambda x: x == ("arg", 2)) and mentions(b, lambda x: x == ("arg", 3)) and \
+                                    ret[0] == "call" and ret[1].endswith("::cmp"):
                                 cmp_ok = True
                 if okl and okr and old_side(l[2][0], 0) and old_side(r_[2][0], 1) and cmp_ok:
                     good = True
